@@ -160,7 +160,12 @@ def handleSym (op : String) (j : Json) : Except String Json := do
         let idx ← getNatList oj "idx"
         let ups := s.log.filter (fun e => match e.1 with | .pair pre _ => pre != prefixKey | _ => true)
         pure (step s (.remove (idx.filterMap (fun i => ups[i]?.map (·.1)))))
-      | _ => do pure (step s (← parseSymOp oj))
+      | _ => do
+        -- optional `view`: what the client that issued the command believed `encrypted` to be (absent = the repository's own flag)
+        let op ← parseSymOp oj
+        match oj.getObjVal? "view" with
+        | .ok (Json.bool v) => pure (stepView s v op)
+        | _ => pure (step s op)
     pure (Json.mkObj [("log", pairsJson s.log), ("uses", pairsJson s.uses), ("next", jnat s.next),
                       ("store", pairsJson s.store), ("users", jnat s.users.length)])
   | "sym.restore" =>
